@@ -213,6 +213,13 @@ theorem ObjKind.isMod {proj : Project} {S : Site} {c : Cls} (h : ObjKind proj S 
 def HasEntry (s : St) (ctx : Nat) (x : Name) : Prop :=
   ∃ o, s.reg.objs[ctx]? = some o ∧ (dget o.contents x ≠ none ∨ dget o.aliases x ≠ none)
 
+def HasContent (s : St) (ctx : Nat) (x : Name) : Prop :=
+  ∃ o c, s.reg.objs[ctx]? = some o ∧ dget o.contents x = some c
+
+theorem HasContent.entry {s : St} {ctx : Nat} {x : Name} (h : HasContent s ctx x) : HasEntry s ctx x := by
+  obtain ⟨o, c, ho, hd⟩ := h
+  exact ⟨o, ho, Or.inl (by rw [hd]; simp)⟩
+
 mutual
 /-- every binding statement of a visited body left an entry in the scope's object (and every
 class statement a class object whose own body is complete) -/
@@ -222,8 +229,8 @@ def CompleteStmt (s : St) (ctx : Nat) : Stmt → Prop
   | .importMod t a => ∀ x ∈ explicitNames (.importMod t a), HasEntry s ctx x
   | .importFrom _ _ n a => HasEntry s ctx (a.getD n)
   | .importStar _ _ => True
-  | .funcDef n => HasEntry s ctx n
-  | .assign n _ => HasEntry s ctx n
+  | .funcDef n => HasContent s ctx n
+  | .assign n _ => HasContent s ctx n
   | .allAssign _ => True
 def CompleteStmts (s : St) (ctx : Nat) : List Stmt → Prop
   | [] => True
@@ -307,8 +314,16 @@ theorem CompleteStmt.extObjs {s s' : St} (h : ExtObjs s s') : ∀ {ctx : Nat} (s
     exact fun x hx => (hc x hx).extObjs h
   | ctx, .importFrom _ _ n a, hc => by simp only [CompleteStmt] at hc ⊢; exact hc.extObjs h
   | ctx, .importStar _ _, _ => by simp [CompleteStmt]
-  | ctx, .funcDef n, hc => by simp only [CompleteStmt] at hc ⊢; exact hc.extObjs h
-  | ctx, .assign n _, hc => by simp only [CompleteStmt] at hc ⊢; exact hc.extObjs h
+  | ctx, .funcDef n, hc => by
+    simp only [CompleteStmt] at hc ⊢
+    obtain ⟨o, c, ho, hd⟩ := hc
+    obtain ⟨o', ho', _, hcc, _⟩ := h ctx o ho
+    exact ⟨o', c, ho', hcc n c hd⟩
+  | ctx, .assign n _, hc => by
+    simp only [CompleteStmt] at hc ⊢
+    obtain ⟨o, c, ho, hd⟩ := hc
+    obtain ⟨o', ho', _, hcc, _⟩ := h ctx o ho
+    exact ⟨o', c, ho', hcc n c hd⟩
   | ctx, .allAssign _, _ => by simp [CompleteStmt]
 theorem CompleteStmts.extObjs {s s' : St} (h : ExtObjs s s') : ∀ {ctx : Nat} (sts : List Stmt), CompleteStmts s ctx sts → CompleteStmts s' ctx sts
   | _, [], _ => by simp [CompleteStmts]
@@ -1233,7 +1248,7 @@ theorem visitFunc_ok {proj : Project} {rank : List Nat} (wf : WFacts proj rank) 
   have hps : getPs s S.1 ≠ .unprocessed := by rw [hc.hS1, hc.ps]; simp
   obtain ⟨h1, h2, _, _, _, ⟨po, hpo, hd⟩, _⟩ :=
     pdInv_addObj wf hI hb hc.pathc hc.body hst (st := .funcDef n) rfl hps (hc.static hI)
-  exact ⟨h1, h2, by simp only [CompleteStmt]; exact ⟨po, hpo, Or.inl (by rw [hd]; simp)⟩⟩
+  exact ⟨h1, h2, by simp only [CompleteStmt]; exact ⟨po, _, hpo, hd⟩⟩
 
 theorem visitAssign_ok {proj : Project} {rank : List Nat} (wf : WFacts proj rank) {s : St} (hI : PdInv proj s)
     {mod ctx : Nat} {S : Site} {full : List Stmt} (hc : Ctx proj s mod ctx S full) {n : Name} {v : Nat}
@@ -1249,15 +1264,14 @@ theorem visitAssign_ok {proj : Project} {rank : List Nat} (wf : WFacts proj rank
     intro hb'
     obtain ⟨h1, h2, _, _, _, ⟨po, hpo, hd⟩, _⟩ :=
       pdInv_addObj wf hI hb' hc.pathc hc.body hst (st := .assign n v) rfl hps (hc.static hI)
-    exact ⟨h1, h2, by simp only [CompleteStmt]; exact ⟨po, hpo, Or.inl (by rw [hd]; simp)⟩⟩
+    exact ⟨h1, h2, by simp only [CompleteStmt]; exact ⟨po, _, hpo, hd⟩⟩
   have hhas : dhas o.contents n = true → CompleteStmt s ctx (.assign n v) := by
     intro h
     simp only [CompleteStmt]
-    refine ⟨o, ho, Or.inl ?_⟩
     unfold dhas at h
     cases hd : dget o.contents n with
     | none => simp [hd] at h
-    | some c => simp
+    | some c => exact ⟨o, c, ho, hd⟩
   unfold visitAssign at hb ⊢
   simp only [hgo] at hb ⊢
   by_cases hm : isModuleCls o.cls = true
@@ -1872,10 +1886,10 @@ theorem complete_entry {s : St} {ctx : Nat} {st : Stmt} {x : Name} (hc : Complet
   | importStar l M => simp [explicitNames] at hx
   | funcDef n =>
     simp only [explicitNames, List.mem_singleton] at hx; subst hx
-    simpa only [CompleteStmt] using hc
+    simp only [CompleteStmt] at hc; exact hc.entry
   | assign n v =>
     simp only [explicitNames, List.mem_singleton] at hx; subst hx
-    simpa only [CompleteStmt] using hc
+    simp only [CompleteStmt] at hc; exact hc.entry
   | allAssign l => simp [explicitNames] at hx
 
 /-- following a chain of class names through complete bodies -/
